@@ -87,3 +87,9 @@ func init() {
 		Quick:    tierCfg{Shards: 16, Checks: 150, Procs: mixedProcs, TimeoutS: 900, ReplayRepeat: 20},
 		Thorough: tierCfg{Shards: 16, Checks: 4000, Procs: mixedProcs, TimeoutS: 5400, ReplayRepeat: 100}}
 }
+
+func init() {
+	specs["C11"] = propSpec{Level: "exploration",
+		Quick:    tierCfg{Shards: 16, Checks: 120, Procs: mixedProcs, TimeoutS: 900, ReplayRepeat: 10},
+		Thorough: tierCfg{Shards: 16, Checks: 3000, Procs: mixedProcs, TimeoutS: 5400, ReplayRepeat: 50}}
+}
